@@ -24,6 +24,14 @@ CHECKS = {
    technique="deterministic simulation: real threads under a seeded cooperative scheduler (sys.settrace line events as pre-emption points, baton passing), PCT-style bounded pre-emption schedules plus single-pre-emption sweeps, compared with each thread running alone",
    text="Seeded search over (definitions biased to expressions, bit-fields, unions, pointers, enums; 2-4 threads with own streams sharing the type objects; schedules). The simulator owns the only source of nondeterminism (which thread runs after each library source line), so every schedule replays exactly. Oracle: every thread's observations and exceptions equal those of its script run alone on a freshly loaded cstruct. Sampling of schedules with at most 3 pre-emptions plus windows of exhaustive single pre-emption placement; not exhaustive.",
    note="Trusts: line-granularity yield points (switches inside one source line not explored); CPython executes one bytecode atomically; the tracer does not change library behaviour."),
+ "C14": dict(engine="E-WORLD", cat="exploration", ref="4.7",
+   technique="deterministic simulation: seeded interleaving of several logical clients over the library's process-global state, operations that raise as injected faults, per-step frame invariant plus serialisability against each client run alone in a pristine forked process",
+   text="Seeded worlds of 2-4 clients (own cstruct objects, colliding and identical definitions, scripts of load/default/parse/mutate/dump/set_endian/add_type/malformed load/...) interleaved by a seeded scheduler. After every step only the targeted instance may change (all live instances of all clients are re-observed); defaults and repeated parses must repeat; afterwards every client's outcome log must equal the log of the same script run alone in a child forked from a process that never used the library. Sampling, not exhaustive.",
+   note="Trusts: observation covers field values, _sizes and type names; scripts never share sub-objects between instances on purpose; every world runs in its own forked child so hidden global state cannot leak between runs."),
+ "C17": dict(engine="E-WORLD", cat="exploration", ref="4.7",
+   technique="deterministic simulation: the E-WORLD client interleaver varies class-creation order and histories of assignments; per-step reference model (field-wise equality/truthiness computed structurally, default+assign construction, byte-locality of assignment)",
+   text="Same world engine with a value-semantics workload: eq/ne, hash, bool, positional/keyword construction, single-field assignment with dumps before/after, cross-cstruct equality. Each op is judged against a small structural model that never calls the structure's own __eq__/__bool__; class-creation order across clients (generated methods are cached by field count and patched per class) is the searched dimension, and each client's log must equal its log when run alone.",
+   note="Trusts: field offsets/sizes come from the library's own field table (layout is C04, not claimed); unions are excluded from the equality and locality oracles (bytes-based equality, C11); NaN-holding instances are skipped."),
 }
 PENDING = {'C05': 'check not built yet in this revision (planned engine, DESIGN 4); not claimed until its check exists', 'C09': 'check not built yet in this revision (planned engine, DESIGN 4); not claimed until its check exists', 'C10': 'check not built yet in this revision (planned engine, DESIGN 4); not claimed until its check exists', 'C11': 'check not built yet in this revision (planned engine, DESIGN 4); not claimed until its check exists', 'C13': 'check not built yet in this revision (planned engine, DESIGN 4); not claimed until its check exists', 'C14': 'check not built yet in this revision (planned engine, DESIGN 4); not claimed until its check exists', 'C15': 'check not built yet in this revision (planned engine, DESIGN 4); not claimed until its check exists', 'C16': 'check not built yet in this revision (planned engine, DESIGN 4); not claimed until its check exists', 'C17': 'check not built yet in this revision (planned engine, DESIGN 4); not claimed until its check exists', 'C18': 'check not built yet in this revision (planned engine, DESIGN 4); not claimed until its check exists'}
 
